@@ -2,8 +2,10 @@
 import props_struct
 import props_trav
 import props_query
+import props_single
 
 CHECKS = {}
 CHECKS.update(props_struct.CHECKS)
 CHECKS.update(props_trav.CHECKS)
 CHECKS.update(props_query.CHECKS)
+CHECKS.update(props_single.CHECKS)
